@@ -537,7 +537,6 @@ Proof.
   set (s0 := mksstrm (q_l s) (q_s s) T (match sa_P a with Some p => p | None => q_P s end)) in *.
   assert (R0 : same_except si s s0) by apply same_except_refl.
   destruct (sa_sol a) as [x|].
-  - destruct (negb (e_setup st)); [inversion H; subst; exact R0|].
     destruct (update_solubility si SAll (nthq (q_s s0) si + nthq (q_l s0) si) (q_l s0) (q_s s0) x) as [[l' sd']|e] eqn:U;
       inversion H; subst; [|exact R0].
     apply sle_update_frame_lemma in U as (L1 & L2 & FR). unfold same_except, sset_ls; simpl. auto.
@@ -1146,4 +1145,18 @@ Proof.
   destruct (use_cache_sound_lemma _ _ _ _ _ _ _ _ _ _ _ _ _ HC HD HU) as (_ & SC & TT & ZZ & _).
   rewrite FC in SC. inversion SC; subst idx1. rewrite FT in TT. rewrite FZ in ZZ.
   repeat split; auto. eauto.
+Qed.
+
+(* a call with a given solubility does not depend on what the solver did before: for every state it applies
+   _update_solubility over all chemicals to the flows as they are, and returns normally whenever that does *)
+Theorem sle_given_spec_lemma : forall V o st s si T P x st' s' r,
+  sle_call V o st s (mksargs (Some si) (Some T) false P (Some x)) = (st', s', r) ->
+  match update_solubility si SAll (nthq (q_s s) si + nthq (q_l s) si) (q_l s) (q_s s) x with
+  | Ok ls => r = Ok tt /\ q_l s' = fst ls /\ q_s s' = snd ls
+  | Err e => r = Err e /\ q_l s' = q_l s /\ q_s s' = q_s s
+  end /\ q_T s' = T.
+Proof.
+  intros V o st s si T P x st' s' r H. unfold sle_call in H. simpl in H.
+  destruct (update_solubility si SAll (nthq (q_s s) si + nthq (q_l s) si) (q_l s) (q_s s) x) as [ls|e];
+    inversion H; subst; simpl; auto.
 Qed.
